@@ -13,11 +13,20 @@
         reordering signal never reaches the caller, nor (empty oracle tape)
         the oracle error of the model;
     (c) the three outcomes in one statement, with the meaning of the result
-        for an accepted tree ([C05_add_expr_sem]);
+        for an accepted tree ([C05_add_expr_sem]) when the node table is
+        unbounded ([max_nodes s = None]);
     (d) dynamic reordering enabled or disabled, top-level call: the
         decorator theorem [C09c_decorator_total] applies.
-    NOT proved here: the meaning of the result when dynamic reordering is
-    ENABLED (then [extends] fails: a reordering renumbers nodes).
+    Node limit ([bdd.max_nodes]): (a), (b), (d) and the safety part of (c)
+    hold for ANY limit; the outcome may then be [Err ERuntime] (the
+    [RuntimeError] of a full table), which these statements allow: the manager
+    stays well formed, old references keep their functions, counters stay
+    exact; in (d) the reordering mode is kept also when the sifting pass
+    started by the decorator meets the full table (dd 854af5f: the threshold
+    is put back when [reorder(bdd)] raises; [C17d_decorator_total]).
+    The MEANING of the result when dynamic reordering is ENABLED (then
+    [extends] fails: a reordering renumbers nodes) is [C09_add_expr_dynamic]
+    ([Properties/C09_add_expr.v]).
     Only statements closed by [exact]; proofs live in
     [Proofs/AddExprTotal.v]. *)
 From stdpp Require Import strings.
@@ -58,8 +67,8 @@ Print Assumptions C17e_add_expr_total.
 
 (** ** (c) the outcomes: a syntax error (state unchanged), or a tree [t] that
     is evaluated — totality for every tree (undeclared names, unknown
-    references [@n], unknown operators, bad quantifier variables ...), success
-    and meaning for an accepted tree *)
+    references [@n], unknown operators, bad quantifier variables ..., a full node
+    table), success and meaning for an accepted tree and an unbounded table *)
 Theorem C17e_add_expr_any lt rw P sp s r s' :
   Inv s → last_len s = None → add_expr lt rw P sp s = (r, s') →
   (syntax_error lt rw P sp ∧ r = Err EValue ∧ s' = s) ∨
@@ -67,7 +76,8 @@ Theorem C17e_add_expr_any lt rw P sp s r s' :
      Inv s' ∧ extends s s' ∧ frame s s' ∧ (∀ L, Counts s L → Counts s' L) ∧
      (∀ u, valid s u → valid s' u ∧ ∀ ρ, denv s' u ρ = denv s u ρ) ∧
      r ≠ Err ENeedsReordering ∧ (tape s = [] → r ≠ Err EOracle) ∧
-     (ok_ast s t → ∃ u, r = Ok u ∧ valid s' u ∧ ∀ ρ, denv s' u ρ = asem s t ρ)).
+     (ok_ast s t → max_nodes s = None →
+      ∃ u, r = Ok u ∧ valid s' u ∧ ∀ ρ, denv s' u ρ = asem s t ρ)).
 Proof. exact (add_expr_any lt rw P sp s r s'). Qed.
 Print Assumptions C17e_add_expr_any.
 
@@ -114,4 +124,24 @@ Example C17e_examples :
   fst (add_expr_ ["\S"; "v7"; "/"; "v0"; ":"; "v0"; "/\"; "v1"] s0) = Err EKey ∧
   size (succ (snd (add_expr_ ["v0"; "/\"; "v7"] s0))) = 2 ∧ size (succ s0) = 1 ∧
   fst (add_expr_ ["\E"; "v2"; ":"; "v0"; "/\"; "v2"; "=>"; "v1"] s0) = Ok 1%Z.
+Proof. by vm_compute. Qed.
+
+(** the same manager with a node limit: the table (one node, next free
+    number 2) is full with [max_nodes = 2]: the formula is accepted but the
+    node of [v0] cannot be created: [RuntimeError], nothing but the limit
+    differs from [s0]; constants need no node; with [max_nodes = 4] the node
+    of [v0] is created (the number after it, 3, is still below the limit),
+    the one of [v1] is not *)
+Example C17e_full_table :
+  let w0 := fst (step2 world2_empty 0 (O1 (ONew [(0, 0); (1, 1); (2, 2)]))) in
+  let s0 := world2_get w0 0 in
+  let s2 := s0 <| max_nodes := Some 2%positive |> in
+  let s3 := s0 <| max_nodes := Some 4%positive |> in
+  max_nodes s0 = None ∧
+  fst (add_expr_ ["v0"; "/\"; "v1"] s2) = Err ERuntime ∧
+  digest (snd (add_expr_ ["v0"; "/\"; "v1"] s2)) = digest s2 ∧
+  fst (add_expr_ ["TRUE"; "/\"; "FALSE"] s2) = Ok (-1)%Z ∧
+  fst (add_expr_ ["v0"; "/\"; "v1"] s3) = Err ERuntime ∧
+  size (succ (snd (add_expr_ ["v0"; "/\"; "v1"] s3))) = 2 ∧
+  fst (add_expr_ ["v0"] s3) = Ok 2%Z.
 Proof. by vm_compute. Qed.
